@@ -87,7 +87,14 @@ theorem modSub_subs (a : AMB) (i : Nat) (f : ASub → ASub) (k : Nat) :
 inductive Effect (net : Net) (s : NState) (t : Nat) (ts : TSt) : Instr → NState → Prop
   /-- only the program counter moves: a gate that is open, a join of an ended thread, a kill instruction without a
   matching exception, or an instruction that names a mailbox / subscriber that does not exist -/
-  | advance (i : Instr) : Effect net s t ts i (s.setThr t ts.advance)
+  | advance (i : Instr)
+      (hr : ∀ m k, i = .read m k → s.mbs[m]? = none ∨ ∃ a, s.mbs[m]? = some a ∧ a.subs[k]? = none)
+      (hs : ∀ m, (i = .send m ∨ i = .close m) → net.mbs[m]? = none ∨ s.mbs[m]? = none)
+      (hk1 : ∀ m, i = .killIfExc m → ts.exc = none)
+      (hk2 : ∀ m, i = .killIfOwn m → ∀ r, ts.exc ≠ some (true, r))
+      (hj : ∀ u, i = .join u → ∀ tu, s.thr[u]? = some tu → tu.prog = [])
+      (hn : (∀ e, i ≠ .fail e ∧ i ≠ .die e) ∧ (∀ sv, i ≠ .finish sv) ∧ i ≠ .dropEpi) :
+      Effect net s t ts i (s.setThr t ts.advance)
   | readPop (m k : Nat) (a : AMB) (sb : ASub) : s.mbs[m]? = some a → a.subs[k]? = some sb → 0 < sb.buffered →
       Effect net s t ts (.read m k)
         ((s.modMB m fun a => a.modSub k fun sb => { sb with buffered := sb.buffered - 1 }).setThr t ts.advance)
@@ -147,20 +154,26 @@ theorem step_cases {net : Net} {s s' : NState} {t : Nat} (h : step net s t = som
       simp only [hp] at h
       cases i with
       | gate m =>
+        have adv : Effect net s t ts (.gate m) (s.setThr t ts.advance) :=
+          .advance _ (by simp) (by simp) (by simp) (by simp) (by simp) (by simp)
         simp only at h
         split at h
         · split at h
-          · simp only [Option.some.injEq] at h; subst h; exact .advance _
+          · simp only [Option.some.injEq] at h; subst h; exact adv
           · simp at h
-        · simp only [Option.some.injEq] at h; subst h; exact .advance _
+        · simp only [Option.some.injEq] at h; subst h; exact adv
       | read m k =>
         simp only at h
         cases hm : s.mbs[m]? with
-        | none => simp only [hm, Option.some.injEq] at h; subst h; exact .advance _
+        | none =>
+          simp only [hm, Option.some.injEq] at h; subst h
+          exact .advance _ (by intro m' k' he; cases he; exact Or.inl hm) (by simp) (by simp) (by simp) (by simp) (by simp)
         | some a =>
           simp only [hm] at h
           cases hs : a.subs[k]? with
-          | none => simp only [hs, Option.some.injEq] at h; subst h; exact .advance _
+          | none =>
+            simp only [hs, Option.some.injEq] at h; subst h
+            exact .advance _ (by intro m' k' he; cases he; exact Or.inr ⟨a, hm, hs⟩) (by simp) (by simp) (by simp) (by simp) (by simp)
           | some sb =>
             simp only [hs] at h
             split at h
@@ -199,7 +212,17 @@ theorem step_cases {net : Net} {s s' : NState} {t : Nat} (h : step net s t = som
               · rename_i hl
                 simp only [Option.some.injEq] at h; subst h; exact .sendOk m sp a hsp hm hc' (by simpa using hk) hl
               · simp at h
-        · simp only [Option.some.injEq] at h; subst h; exact .advance _
+        · rename_i hnone
+          simp only [Option.some.injEq] at h; subst h
+          refine .advance _ (by simp) ?_ (by simp) (by simp) (by simp) (by simp)
+          intro m' he
+          rcases he with he | he <;> cases he
+          cases h1 : net.mbs[m]? with
+          | none => exact Or.inl rfl
+          | some sp =>
+            cases h2 : s.mbs[m]? with
+            | none => exact Or.inr rfl
+            | some a => exact (hnone sp a h1 h2).elim
       | close m =>
         simp only at h
         split at h
@@ -217,7 +240,17 @@ theorem step_cases {net : Net} {s s' : NState} {t : Nat} (h : step net s t = som
               · rename_i hl
                 simp only [Option.some.injEq] at h; subst h; exact .closeOk m sp a hsp hm hc' (by simpa using hk) hl
               · simp at h
-        · simp only [Option.some.injEq] at h; subst h; exact .advance _
+        · rename_i hnone
+          simp only [Option.some.injEq] at h; subst h
+          refine .advance _ (by simp) ?_ (by simp) (by simp) (by simp) (by simp)
+          intro m' he
+          rcases he with he | he <;> cases he
+          cases h1 : net.mbs[m]? with
+          | none => exact Or.inl rfl
+          | some sp =>
+            cases h2 : s.mbs[m]? with
+            | none => exact Or.inr rfl
+            | some a => exact (hnone sp a h1 h2).elim
       | fail e => simp only [Option.some.injEq] at h; subst h; exact .fail e
       | die e => simp only [Option.some.injEq] at h; subst h; exact .die e
       | killIfExc m =>
@@ -225,20 +258,38 @@ theorem step_cases {net : Net} {s s' : NState} {t : Nat} (h : step net s t = som
         split at h
         · rename_i own r he
           simp only [Option.some.injEq] at h; subst h; exact .kill _ m own r he (Or.inl rfl)
-        · simp only [Option.some.injEq] at h; subst h; exact .advance _
+        · rename_i hne
+          simp only [Option.some.injEq] at h; subst h
+          refine .advance _ (by simp) (by simp) ?_ (by simp) (by simp) (by simp)
+          intro m' he; cases he
+          exact hne
       | killIfOwn m =>
         simp only at h
         split at h
         · rename_i r he
           simp only [Option.some.injEq] at h; subst h; exact .kill _ m true r he (Or.inr ⟨rfl, rfl⟩)
-        · simp only [Option.some.injEq] at h; subst h; exact .advance _
+        · rename_i hne
+          simp only [Option.some.injEq] at h; subst h
+          refine .advance _ (by simp) (by simp) (by simp) ?_ (by simp) (by simp)
+          intro m' he r hx; cases he
+          exact hne r hx
       | join u =>
         simp only at h
         split at h
-        · split at h
-          · simp only [Option.some.injEq] at h; subst h; exact .advance _
+        · rename_i tu htu
+          split at h
+          · rename_i hend
+            simp only [Option.some.injEq] at h; subst h
+            refine .advance _ (by simp) (by simp) (by simp) (by simp) ?_ (by simp)
+            intro u' he tu' htu'; cases he
+            rw [htu] at htu'; cases htu'
+            simpa [TSt.ended] using hend
           · simp at h
-        · simp only [Option.some.injEq] at h; subst h; exact .advance _
+        · rename_i hnone
+          simp only [Option.some.injEq] at h; subst h
+          refine .advance _ (by simp) (by simp) (by simp) (by simp) ?_ (by simp)
+          intro u' he tu' htu'; cases he
+          rw [hnone] at htu'; cases htu'
       | finish sv => simp only [Option.some.injEq] at h; subst h; exact .finish sv _ rfl
       | dropEpi => simp only [Option.some.injEq] at h; subst h; exact .dropEpi
 
